@@ -4,7 +4,7 @@ import pickle
 
 from hypothesis import strategies as st
 
-from vlib.core import Outcome, Sub, HarnessError, is_known
+from vlib.core import Outcome, Sub, HarnessError, is_known, expand_ops, REPEATS
 
 from boltons import dictutils
 from boltons.dictutils import OrderedMultiDict
@@ -25,7 +25,7 @@ ASSUMPTIONS = [
     'len() is the number of distinct keys (dict API)',
 ]
 
-KEYS = [0, 1, True, 1.0, 'a', 'b', None, (1, 2), frozenset({1})]
+KEYS = [0, 1, True, 1.0, 'a', 'b', None, (1, 2), frozenset({1}), -1, -2, '']     # -1/-2 collide in hash, '' 0 None are falsy
 VALUES = [0, 1, 2, 'a', 'x', None, [1], [], {'k': 1}, (3, 4)]
 KWNAMES = ['a', 'b', 'c']
 
@@ -135,6 +135,7 @@ def strat(tier):
         'cls': st.sampled_from(['OMD', 'OMD', 'OMD', 'OMD', 'QPD']),
         'ctor': st.tuples(st.sampled_from(['empty', 'pairs', 'dict', 'omd', 'kwargs', 'iter', 'pairs+kwargs']), _pairs, _kw).map(list),
         'ops': st.lists(_op(), max_size=n),
+        'repeat': st.sampled_from(REPEATS),
     })
 
 
@@ -373,7 +374,7 @@ def run(case):
     had_multi = False
     nontrivial = False
     olds = []
-    for op in case['ops']:
+    for op, full_check in expand_ops(case, (1,)):
         name = op[0]
         opname = name
         exp = ('ok', None)
@@ -536,7 +537,8 @@ def run(case):
                 new = r[1]
                 if type(new) is not cls or new is omd:
                     return out.fail('c01.copy.type', '%s returned %r (%s)' % (opname, new, type(new).__name__))
-                olds.append((omd, list(m.pairs), opname))
+                if len(olds) < 40:
+                    olds.append((omd, list(m.pairs), opname))
                 omd = new
                 got = ('ok', None)
             else:
@@ -552,12 +554,16 @@ def run(case):
             if got[0] != 'exc' or got[1] != exp[1]:
                 return out.fail('c01.return.%s' % name, '%s%r returned %r, model says raises %s; model pairs now %r' % (
                     name, tuple(op[1:]), got, exp[1], m.pairs))
-        if not compare_reads(omd, m, cls, out, opname):
+        if full_check and not compare_reads(omd, m, cls, out, opname):
             return out
         if not had_multi:
             ks = m.keys()
             if len(ks) < len(m.pairs):
                 had_multi = True
+    if case.get('repeat', 1) > 1:
+        out.label('long_history')
+        if not compare_reads(omd, m, cls, out, 'end-of-long-history'):
+            return out
     # copies made on the way must not have been affected by later operations
     for old, snap, opname in olds:
         r = _call(lambda: old.items(multi=True))
